@@ -776,7 +776,7 @@ def run_C12(ctx, rng, tier, res, known):
 # ------------------------------------------------------------------ C13
 def run_C13(ctx, rng, tier, res, known):
     q = tier == "quick"
-    cases = gens.gen_histories(rng, 1500 if q else 40000)
+    cases = gens.gen_histories(rng, 1500 if q else 8000)
     # the known-finding witness (un-normalised operands)
     cases.append(("vh from:1,0;clone;from:2;cmp;eq", "H-unnormalized-witness"))
     cases.append(("vh from:1,0;clone;from:1;eq;cmp", "H-unnormalized-witness"))
